@@ -49,7 +49,7 @@ CHECKS = {
     'Theorems over any field: code matrix inverse, sum P_i = P_total, words regroup by configuration, mass telescopes, empty configuration = resolvent, '
     'expected counts, first-step recursion, _unfold / _get_partitions / distinct orderings specs. Real get_mutation_config diffed against the model in '
     'exact rational arithmetic (1e-10), plus independent numpy oracles for Laplace transform, mass, recursion, folded sum.',
-    'PT4 (probabilistic reading of the resolvent) is textbook; non-negativity of the resolvent and 0 <= probability <= 1 are proved (resolvent_nonneg, config_orderings_prob_nonneg / _le_one, mutConfigProb_nonneg) and the sign hypotheses are discharged for the matrices the code model builds (C16_code_prob_in_unit_interval, unfolded kind; the folded path and success of the Gauss-Jordan step are exercised). Partial: PT4 only. '),
+    'PT4 (probabilistic reading of the resolvent) is textbook; non-negativity of the resolvent and 0 <= probability <= 1 are proved (resolvent_nonneg, config_orderings_prob_nonneg / _le_one, mutConfigProb_nonneg) and the sign hypotheses are discharged for the matrices the code model builds (C16_code_prob_total / _folded: the executable returns a value - Gauss-Jordan success proved by a loop invariant - and it lies in [0, 1], unfolded and folded). Partial: PT4 only. '),
 }
 
 _P = {
